@@ -48,6 +48,13 @@ pub const TIMELINE_WRITES: &[WSym] = &[
     WSym { step: -1, off: 0, size: 2, sync: true },
 ];
 
+/// Tick-level jitter alphabet for the deep C11 search: decode-time steps of 0, 1 and 2 ticks.
+pub const JITTER_WRITES: &[WSym] = &[
+    WSym { step: 1, off: 0, size: 1, sync: true },
+    WSym { step: 0, off: 0, size: 1, sync: false },
+    WSym { step: 2, off: 0, size: 1, sync: true },
+];
+
 #[derive(Clone, Debug, PartialEq, Eq, Serialize, Deserialize)]
 pub enum FOp {
     Write { pts: u64, dts: u64, data: String, sync: bool },
@@ -616,14 +623,33 @@ impl<'a> Search<'a> {
 }
 
 pub fn collect(ctx: &Ctx, prop: &'static str) -> (Tally, Meta) {
-    let (writes, depth): (&[WSym], usize) = match (ctx.thorough, prop) {
+    let (mut tally, meta) = collect_run(ctx, prop, None);
+    if prop == "C11" {
+        // second run: tick-level jitter (steps 0/1/2) much deeper, on two configurations
+        let depth = if ctx.thorough { 12 } else { 9 };
+        let (t2, _) = collect_run(ctx, prop, Some((JITTER_WRITES, depth)));
+        tally.count("jitter_search_states", t2.states);
+        tally.merge(t2);
+    }
+    let mut meta = meta;
+    if prop == "C11" {
+        meta.rule = format!("{} Second search: decode-time steps {{0, 1, 2}} ticks + flush + init to depth {} on the H.264 builder configuration with start DTS 0 and 9000 (tick-level jitter around segment boundaries).", meta.rule, if ctx.thorough { 12 } else { 9 });
+    }
+    (tally, meta)
+}
+
+fn collect_run(ctx: &Ctx, prop: &'static str, over: Option<(&'static [WSym], usize)>) -> (Tally, Meta) {
+    let (writes, depth): (&[WSym], usize) = if let Some(o) = over { o } else { match (ctx.thorough, prop) {
         (true, "C11") => (TIMELINE_WRITES, 8),
         (false, "C11") => (TIMELINE_WRITES, 6),
         (true, _) => (WRITES, 6),
         (false, "C10") => (WRITES, 5),
         (false, _) => (WRITES, 4),
-    };
-    let cfgs = configs(ctx.thorough);
+    } };
+    let mut cfgs = configs(ctx.thorough);
+    if over.is_some() {
+        cfgs.retain(|c| c.codec == VCodec::H264 && c.via_builder);
+    }
     // work items: (config, first extending operation index) to spread over cores
     let mut items: Vec<(FCfg, usize)> = vec![];
     for c in &cfgs {
